@@ -162,12 +162,12 @@ func window(lg *countLogger, d time.Duration) (logs int64, cpuMs, wallMs float64
 }
 
 type worker struct {
-	srv         *servers
-	dir         string
-	baseCPU     float64
-	baseLog     int64
-	haveBase    bool
-	finish      func() // completes the last observation (a Close still running in the background)
+	srv      *servers
+	dir      string
+	baseCPU  float64
+	baseLog  int64
+	haveBase bool
+	finish   func() // completes the last observation (a Close still running in the background)
 }
 
 var info = mcp.Implementation{Name: "verif-readers", Version: "1"}
